@@ -66,7 +66,7 @@ use nix::libc::{c_void, uintptr_t};
 use nix::sys;
 use nix::sys::signal;
 use nix::sys::signal::{SIGKILL, Signal};
-use nix::sys::wait::{WaitStatus, waitpid};
+use nix::sys::wait::{WaitPidFlag, WaitStatus, waitpid};
 use nix::unistd::Pid;
 use object::Object;
 use os_pipe::PipeWriter;
@@ -1296,41 +1296,28 @@ impl Drop for Debugger {
                 self.watchpoints
                     .clear_all(self.debugee.tracee_ctl(), &mut self.breakpoints);
 
-                let current_tids: Vec<Pid> = self
-                    .debugee
-                    .tracee_ctl()
-                    .tracee_iter()
-                    .map(|t| t.pid)
-                    .collect();
-
-                // todo currently ok only if all threads in group stop
-                // continue all threads with SIGSTOP
-                let prepare_stopped: Vec<_> = current_tids
-                    .into_iter()
-                    .filter(|&tid| sys::ptrace::cont(tid, Signal::SIGSTOP).is_ok())
-                    .collect();
-                let stopped: Vec<_> = prepare_stopped
-                    .into_iter()
-                    .filter(|&tid| waitpid(tid, None).is_ok())
-                    .collect();
-                // detach ptrace
-                stopped.into_iter().for_each(|tid| {
-                    sys::ptrace::detach(tid, None).expect("detach tracee");
-                });
-                // kill debugee process
-                signal::kill(self.debugee.tracee_ctl().proc_pid(), Signal::SIGKILL)
-                    .expect("kill debugee");
-                let wait_result = loop {
-                    let wait_result = waitpid(Pid::from_raw(-1), None).expect("waiting debugee");
-                    if wait_result.pid() == Some(self.debugee.tracee_ctl().proc_pid()) {
-                        break wait_result;
+                // Kill the process and reap it. Every thread of the killed process may still report
+                // ptrace stops (PTRACE_EVENT_EXIT, pending traps): resume whatever shows up until the
+                // thread group leader is gone. (Resuming the threads with SIGSTOP and waiting for each
+                // of them first can block forever: the signal is ignored in a ptrace-event-stop and a
+                // thread that then sleeps or waits for another thread never stops again.)
+                let proc_pid = self.debugee.tracee_ctl().proc_pid();
+                signal::kill(proc_pid, Signal::SIGKILL).expect("kill debugee");
+                loop {
+                    match waitpid(Pid::from_raw(-1), Some(WaitPidFlag::__WALL)) {
+                        Ok(WaitStatus::Exited(pid, _)) | Ok(WaitStatus::Signaled(pid, _, _))
+                            if pid == proc_pid =>
+                        {
+                            break;
+                        }
+                        Ok(status) => {
+                            if let Some(pid) = status.pid() {
+                                _ = sys::ptrace::cont(pid, None);
+                            }
+                        }
+                        Err(_) => break,
                     }
-                };
-
-                debug_assert!(matches!(
-                    wait_result,
-                    WaitStatus::Signaled(_, Signal::SIGKILL, _)
-                ));
+                }
             }
             ExecutionStatus::Exited => {}
         }
